@@ -196,6 +196,33 @@ class Recorder:
                     self.nt.add(d)
                     self._sample(d, case)
 
+    # -- stateful machines: the log of operations is the case
+    def machine_begin(self, case):
+        now = time.time()
+        if self.tfail is not None and now - self.tfail > self.shrink_s:
+            raise _Stop("shrink budget")
+        if self.tfail is None and now - self.t0 > self.budget_s:
+            self.status = "inconclusive"
+            raise _Stop("budget")
+
+    def machine_end(self, case, info):
+        self.evaluations += 1
+        for lab in info.get("labels", ()):
+            self.labels[lab] += 1
+        if info.get("nt"):
+            d = digest(case)
+            self.labels["nontrivial"] += 1
+            if d not in self.nt:
+                self.nt.add(d)
+                self._sample(d, case)
+
+    def machine_failure(self, case, msg):
+        if self.casefd is not None:
+            data = json.dumps(case, allow_nan=True).encode()
+            os.pwrite(self.casefd, data, 0)
+            os.ftruncate(self.casefd, len(data))
+        return self._fail(json.loads(json.dumps(case, allow_nan=True)), msg)
+
     def _sample(self, d, case):
         if len(self.samples) < self.NSAMPLES:
             self.samples[d] = case
